@@ -227,6 +227,9 @@ func runEngine(cases []Case, outDir string) {
 		if out.skip != "" {
 			stats["skipped"]++
 			stats["skip:"+strings.SplitN(out.skip, ":", 2)[0]]++
+			if strings.HasPrefix(out.skip, "panic:") {
+				stats["panic"]++
+			}
 			c.Note += " skipped: " + out.skip
 		} else {
 			stats["run"]++
